@@ -1275,10 +1275,12 @@ def _parse_header(line: str) -> tuple[str, dict[str, str]]:
             params.append((name, native_str(value)))
     try:
         decoded_params = email.utils.decode_params(params)
-    except ValueError:
+    except (ValueError, TypeError):
         # decode_params converts RFC 2231 continuation numbers with int(),
-        # which refuses absurdly long digit strings; such parameters are
-        # left undecoded.
+        # which refuses absurdly long digit strings, and sorts the
+        # sections of a parameter by number, which fails when a numbered
+        # and an unnumbered section of the same name are mixed
+        # (``name*=a; name*1=b``); such parameters are left undecoded.
         decoded_params = list(params)
     decoded_params.pop(0)  # get rid of the dummy again
     pdict = {}
